@@ -82,14 +82,15 @@ template <class T, size_t... D> struct Uni : UniverseBase {
     std::string nm;
     int dims[R];
     Ten *A = nullptr, *B = nullptr, *C = nullptr;
-    std::vector<T> sA, sB, sC, expA, naive;
+    using Flat = Tensor<T, (size_t)SZ>; Flat *F = nullptr;      // a rank-1 tensor of the same element count (rank-mismatched right-hand sides)
+    std::vector<T> sA, sB, sC, sF, expA, naive;
     uint32_t dataseed = 0, sideA = 0;
     bool failalloc = false;
     std::vector<FixOp<self>> fix;
     // long-lived handles (dynamic views of A)
     struct Handle { alignas(View) unsigned char store[sizeof(View)]; bool live = false, armed = false; Sel<R> sel; } hd[NHANDLES];
 
-    explicit Uni(const char *n) : nm(n) { const int dd[R] = {(int)D...}; for (int k = 0; k < R; ++k) dims[k] = dd[k]; sA.resize(SZ); sB.resize(SZ); sC.resize(SZ); expA.resize(SZ); naive.resize(SZ); }
+    explicit Uni(const char *n) : nm(n) { const int dd[R] = {(int)D...}; for (int k = 0; k < R; ++k) dims[k] = dd[k]; sA.resize(SZ); sB.resize(SZ); sC.resize(SZ); sF.resize(SZ); expA.resize(SZ); naive.resize(SZ); }
     const char *name() const override { return nm.c_str(); }
 
     // ---------------------------------------------------------------- cells
@@ -99,13 +100,15 @@ template <class T, size_t... D> struct Uni : UniverseBase {
     void setup(const Plan &p) override {
         dataseed = p.hdr[H_DATA]; sideA = p.hdr[H_SIDE_A] % 3; failalloc = p.hdr[H_FAILALLOC] & 1;
         uint32_t pat = p.hdr[H_POISON];
-        for (int s = 0; s < 3; ++s) g_arena.reset(s, pat + (uint32_t)s);
+        for (int s = 0; s < 4; ++s) g_arena.reset(s, pat + (uint32_t)s);
         g_scrub_byte = (uint8_t)(0x31 + 7 * pat);
         uint8_t *pa = g_arena.place(0, sizeof(Ten), alignof(Ten), sideA, 0, true);
         uint8_t *pb = g_arena.place(1, sizeof(Ten), alignof(Ten), p.hdr[H_SIDE_B] % 3, 0, false);
         uint8_t *pc = g_arena.place(2, sizeof(Ten), alignof(Ten), MIDDLE, 0, false);
-        memset(pa, 0, sizeof(Ten)); memset(pb, 0, sizeof(Ten)); memset(pc, 0, sizeof(Ten));
-        A = new (pa) Ten; B = new (pb) Ten; C = new (pc) Ten;
+        uint8_t *pf = g_arena.place(3, sizeof(Flat), alignof(Flat), MIDDLE, 0, false);
+        memset(pa, 0, sizeof(Ten)); memset(pb, 0, sizeof(Ten)); memset(pc, 0, sizeof(Ten)); memset(pf, 0, sizeof(Flat));
+        A = new (pa) Ten; B = new (pb) Ten; C = new (pc) Ten; F = new (pf) Flat;
+        for (int i = 0; i < SZ; ++i) { sF[i] = pow2val<T>(mix2(dataseed * 7u + 3, (uint64_t)i)); F->data()[i] = sF[i]; }
         refill_A(0, false);
         for (int i = 0; i < SZ; ++i) { sB[i] = pow2val<T>(mix2(dataseed * 3u + 1, (uint64_t)i)); B->data()[i] = sB[i]; sC[i] = smallval<T>(mix2(dataseed * 5u + 2, (uint64_t)i)); C->data()[i] = sC[i]; }
         for (auto &h : hd) { h.live = false; h.armed = false; }
@@ -215,9 +218,9 @@ template <class T, size_t... D> struct Uni : UniverseBase {
                 cx.v->set(cx.si, k, cx.opname, "%s: %s selected element %d of A: got %.17g expected %.17g", cx.opname, what, bad_in, (double)A->data()[bad_in], (double)expA[bad_in]); }
             return false;
         }
-        if (memcmp(B->data(), sB.data(), sizeof(T) * SZ) != 0 || memcmp(C->data(), sC.data(), sizeof(T) * SZ) != 0) {
+        if (memcmp(B->data(), sB.data(), sizeof(T) * SZ) != 0 || memcmp(C->data(), sC.data(), sizeof(T) * SZ) != 0 || memcmp(F->data(), sF.data(), sizeof(T) * SZ) != 0) {
             snprintf(k, sizeof k, "stray-write/%s", family); cx.v->set(cx.si, k, cx.opname, "%s: %s modified another tensor", cx.opname, what); return false; }
-        for (int s = 0; s < 3; ++s) { long off = g_arena.check_poison(s); if (off >= 0) { snprintf(k, sizeof k, "poison/%s", family);
+        for (int s = 0; s < 4; ++s) { long off = g_arena.check_poison(s); if (off >= 0) { snprintf(k, sizeof k, "poison/%s", family);
                 cx.v->set(cx.si, k, cx.opname, "%s: %s overwrote byte %ld of slot %d outside every tensor", cx.opname, what, off, s); return false; } }
         sA = expA;
         return true;
@@ -228,14 +231,17 @@ template <class T, size_t... D> struct Uni : UniverseBase {
 
     // ---------------------------------------------------------------- K_DYN_WRITE (C05)
     void dyn_write(const Step &st, StepCtx &cx) {
-        int op = (int)(st.a[A_OP] % 5); uint32_t rk = st.a[A_RHS] % 7; int form = (int)(st.a[A_FORM] % MkView<R>::NFORMS);
+        int op = (int)(st.a[A_OP] % 5); uint32_t rk = st.a[A_RHS] % 9; int form = (int)(st.a[A_FORM] % MkView<R>::NFORMS);
         if (rk == 6 && (!FullEval<Ten>::available || op == 4)) rk = 4;
+        if (rk >= 7 && R == 1) rk = 1;                                 // rank-mismatched right-hand sides exist for rank >= 2 only
         normalise(cx.si, op, false);
         Sel<R> d; decode_sel(st, A_D0, 9, d);
         if (rk >= 4) { form = 0; for (int k = 0; k < R; ++k) { d.f[k] = 0; d.s[k] = 1; d.ext[k] = dims[k]; d.l[k] = dims[k]; } }   // whole-tensor right-hand sides need the full range
-        if (form != 0 && rk > 1) rk = rk % 2;
+        if (form != 0 && rk > 1 && rk < 7) rk = rk % 2;
         if (op == 4 && (rk == 2 || rk == 3 || rk == 5)) rk = rk == 5 ? 4 : 1;            // divisors must stay powers of two
-        Ten evref; if (rk == 6) evref = FullEval<Ten>::ref(*B, *C);                     // values of B % C from the library's own evaluation
+        Ten evref; if (rk == 6) evref = FullEval<Ten>::ref(*B, *C);
+        if (op == 4 && rk == 8) rk = 7;
+        int fn = d.size(), foff = (int)(st.a[A_S0 + 1] % (uint32_t)(SZ - fn + 1)); seq fq(foff, foff + fn);                     // values of B % C from the library's own evaluation
         seq q[4] = {seq(0, 1), seq(0, 1), seq(0, 1), seq(0, 1)}; int fixi[4] = {0, 0, 0, 0};
         build_args(d, form, st.a[A_X], q, fixi);
         Sel<R> s1, s2; decode_src(st, A_S0, d, s1, 1); decode_src(st, A_S0, d, s2, 2);
@@ -253,13 +259,17 @@ template <class T, size_t... D> struct Uni : UniverseBase {
             case 3: r = (T)(sB[s1.at(dims, qi)] - sC[s2.at(dims, qi)]); break;
             case 4: r = sB[di]; break;
             case 6: r = evref.data()[di]; break;
+            case 7: r = sF[foff + qi]; break;
+            case 8: r = (T)(sF[foff + qi] * (T)2 + (T)1); break;
             default: r = (T)(sB[di] + sC[di] * (T)2); break;
             }
             expA[di] = apply_op<T>(op, sA[di], r); if (memcmp(&expA[di], &sA[di], sizeof(T))) changed = true;
         }
-        Ten &a = *A, &b = *B, &c = *C;
+        Ten &a = *A, &b = *B, &c = *C; Flat &fl = *F;
         Outcome o = window([&] {
             switch (rk) {
+            case 7: do_assign(op, MkView<R>::mk(a, q, fixi, form), fl(fq)); break;
+            case 8: do_assign(op, MkView<R>::mk(a, q, fixi, form), fl(fq) * (T)2 + (T)1); break;
             case 0: do_assign(op, MkView<R>::mk(a, q, fixi, form), sc); break;
             case 1: do_assign(op, MkView<R>::mk(a, q, fixi, form), MkView<R>::mk(b, q1, fixi, 0)); break;
             case 2: do_assign(op, MkView<R>::mk(a, q, fixi, 0), MkView<R>::mk(b, q1, fixi, 0) * (T)2 + MkView<R>::mk(c, q2, fixi, 0)); break;
